@@ -13,7 +13,17 @@ B. `trace`   : a lens from the shared grammar is built with a PolarizationState 
 C. `element` : Jones* element classes, 2x2 block of calculate_matrix(rays).
 
 Known defect mechanisms are modelled ("as-built") so that only a violation *explained* by the
-mechanism gets the mechanism key; anything else comes out as `clause` or `clause:unexplained`.
+mechanism gets the mechanism key; anything else comes out as `clause` or `clause:unexplained`:
+
+* diattenuator-offdiag-precedence  (JonesLinearDiattenuator.calculate_matrix: off-diagonal term
+  `t_max - t_min*cos*sin`; exact numeric prediction),
+* tilted-surface-local-frame       (PolarizedRays.update is called in the surface's local frame and the
+  operator is multiplied into rays.p as if it were global; exact numeric prediction from the recorded
+  ray directions and the surface tilts; the field leaves the transverse plane, the intensity does not change),
+* near-parallel-k-noise            (PolarizedRays.update normalises s = k0 x k1 unless it is exactly 0; on a
+  curved surface with the same medium on both sides -- dummy surface, curved image surface -- k1 = k0 + O(eps)
+  and s is normalised rounding noise: the operator is not orthogonal, intensity and transversality are lost;
+  no numeric prediction, a failing ray is attributed only within the bound 100*eps/|k0 x k1|).
 """
 import math
 
@@ -570,7 +580,7 @@ def _decide(rec, clause, r, fin, nbound, msg, alt_dev=None, mech_possible=False)
 
 
 def check_trace(case, rec):
-    from optiland.rays import create_polarization, PolarizationState
+    from optiland.rays import create_polarization
     spec = dict(case['spec'])
     spec['polarization'] = _pol_kwargs(case['states'][0])
     lens = L.build(spec)
